@@ -168,6 +168,11 @@ def one_model(ctx, script, spec, rng, solved):
     if len(s2) != n or not all(a == b for a, b in zip(s2, span_list)):
         ctx.violation('import-span', f'from_dataframe span {s2[:5]} != original {span_list[:5]}', case)
         return
+    import pandas as _pd
+    if isinstance(m.span, (_pd.DatetimeIndex, _pd.PeriodIndex, _pd.TimedeltaIndex, _pd.MultiIndex)) and type(m2.span) is not type(m.span):
+        # a time index is a span type of its own (labels may be spelled as date strings): it comes back as what it was
+        ctx.violation('import-span', f'from_dataframe turned the {type(m.span).__name__} span of the table into a {type(m2.span).__name__}', case)
+        return
     for nm in data_cols:
         if not np.array_equal(np.asarray(m2[nm]), np.asarray(m[nm]), equal_nan=True):
             ctx.violation('import-values', f'from_dataframe: {nm} = {m2[nm].tolist()} != {m[nm].tolist()}', case)
